@@ -111,6 +111,20 @@ Theorem C03_offsets_agree :
 Proof. exact offsets_agree. Qed.
 Print Assumptions C03_offsets_agree.
 
+(* the initial free chain written by createFreeBufferList (model: the loop itself, initial_chain) links
+   slot i, at i*(capPerBuffer+20) in the region, to slot i+1 and leaves the last slot — the tail —
+   without successor: walking it from head = 0 visits exactly the slots of C03_buffers, each once.
+   The side condition holds for every class created under G1. *)
+Theorem C03_initial_chain : forall num cpb,
+  0 <= cpb -> 0 <= num -> num * (cpb + c_bufferHeaderSize) < 4294967296 ->
+  initial_chain num cpb =
+  map (fun k => let i := Z.of_nat k in
+                (i * (cpb + c_bufferHeaderSize),
+                 if i <? num - 1 then Some ((i + 1) * (cpb + c_bufferHeaderSize)) else None))
+      (seq 0 (Z.to_nat num)).
+Proof. exact initial_chain_spec. Qed.
+Print Assumptions C03_initial_chain.
+
 (* ---------------------------------------------------------------------------------------------- *)
 (* queues *)
 Theorem C03_queues_partial : forall cap m,
